@@ -43,6 +43,9 @@ ASSUMPTIONS = [
     "is used at top level and in key / mouse handlers only; after a terminal resize the harness exposes the whole root)",
     "a handler of the kinds EXPOSE / FOCUS / GEOMCHANGE makes a call that dispatches its own kind again only after it has "
     "unbound itself (the harness cuts a handler's nesting off at depth 6, the model has no such cut-off)",
+    "DESTROY handlers that make calls are NOT modelled (the model records the binding and never runs it): for scripts that "
+    "bind one (b<i>.d...., about 3 % of the W cases) the observation is not compared with the model's, the oracle -- the "
+    "extracted discipline on the trace of calls the harness reports -- judges them alone, and no theorem is about them",
     "a single root window per script; the harness holds the only client reference to the terminal",
     "R cases: text and erase calls cover a whole line, so that a line is a single span (span splitting, masks, clips "
     "and translation belong to C03/C04); pens / frames / strings of a buffer are counted as live blocks of their sizes",
@@ -160,6 +163,7 @@ def gen_wf_script(rnd, maxops, events, release, efg=False):
     toks = []
     nwin = 1
     armed = False      # an EXPOSE / FOCUS / GEOMCHANGE handler is bound: flush, take_focus and set_geometry dispatch
+    dbound = False     # a DESTROY handler is bound: the last unref of a window dispatches
 
     def pick(pred):
         c = [i for i in range(nwin) if pred(i)]
@@ -227,9 +231,10 @@ def gen_wf_script(rnd, maxops, events, release, efg=False):
             if i is not None:
                 rk = rnd.random()
                 if efg and rk < 0.5:
-                    kind = rnd.choice("efg")
-                    op = "b%d.%s.0.%d.%s" % (i, kind, rnd.randint(0, 1), action_for(i, kind))
+                    kind = rnd.choice("efgefgd")
+                    op = "b%d.%s.0.%d.%s" % (i, kind, rnd.randint(0, 1), action_for(i, "g" if kind == "d" else kind))
                     armed = True
+                    dbound = dbound or kind == "d"
                 elif efg and rk < 0.6:
                     op = "N%d.%d" % (i, rnd.randint(0, 1))
                 elif rnd.random() < 0.5:
@@ -246,7 +251,7 @@ def gen_wf_script(rnd, maxops, events, release, efg=False):
         if op[0] == 'n':
             nwin += 1
         toks.append(op)
-        if op[0] in "kmZ" or (armed and op[0] in "tyfp"):
+        if op[0] in "kmZ" or (armed and op[0] in "tyfp") or (dbound and op[0] in "uc"):
             # the ghost of the generator does not follow handlers: stop relying on it
             break
     if release and not armed and not any(t[0] in "kmZ" for t in toks):
@@ -402,6 +407,24 @@ def gen_W(tier, seed, info):
             for where in (0, 1):
                 stats["exhaustive"] += 1
                 yield "W n0.0 %s b%d.g.0.0.%s Z f0 Z y0 f0" % (" ".join(keep), where, body)
+    # DESTROY handlers that make calls on OTHER windows (not modelled; judged by the oracle alone): the handler of a
+    # window that is being destroyed flushes, exposes, moves the focus, resizes, releases / closes its parent, the root or
+    # a sibling, creates a window -- while its own window is still in the tree with no reference left
+    for shape, dying, others in ((["n0.0"], 1, [0]), (["n0.0", "n0.0"], 1, [0, 2]), (["n0.0", "n1.0", "n0.0"], 2, [0, 1, 3]),
+                                 (["n0.0", "n1.0", "r2"], 1, [0, 2])):
+        d = dying
+        # ... and calls on the dying window itself (not traced: the handler is handed the window): events on it, its pen
+        bodies = ["f0", "x0,f0", "u0", "t0", "y0", "Z", "n0.0", "R%d" % dying, "-",
+                  "y%d" % d, "t%d" % d, "x%d,f0" % d, "p%d" % d, "q%d,z%d,P%d" % (d, d, d), "h%d,f0" % d, "t%d,y%d,x%d,f0,u0" % (d, d, d),
+                  "N%d.1,t%d" % (d, d), "y%d,y%d" % (d, d)]
+        for o in others:
+            if o != 0:
+                bodies += ["u%d" % o, "c%d,u%d" % (o, o), "t%d" % o, "y%d" % o, "p%d" % o, "x%d,f0" % o, "h%d,f0" % o, "n%d.0" % o]
+        for body in bodies:
+            for pre in ([], ["t%d" % dying], ["R%d" % dying], ["x0"]):
+                for how in (["u%d" % dying], ["c%d" % dying, "u%d" % dying]):
+                    stats["exhaustive"] += 1
+                    yield "W " + " ".join(shape + pre + ["b%d.d.0.0.%s" % (dying, body)] + how + ["f0"])
     # the expose handlers release the root itself (flush goes on using it), at the root and below
     for where in (0, 1, 2):
         for body in ("u0", "c1,u1,u0", "u1,u0", "c0,u0", "u0,u1"):
@@ -424,7 +447,7 @@ def gen_W(tier, seed, info):
         # after the first event the generator no longer knows the state: add a few more events and a flush
         nw = 1 + sum(1 for t in toks if t[0] == 'n')
         more = ["k", "mp", "md", "mr", "mw", "f0"] + (["x0", "f0", "Z", "t%d" % rnd.randrange(nw), "y%d" % rnd.randrange(nw),
-                                                       "p%d" % rnd.randrange(nw)] if efg else [])
+                                                       "p%d" % rnd.randrange(nw), "u%d" % rnd.randrange(nw)] if efg else [])
         toks += [rnd.choice(more) for _ in range(rnd.randint(0, 4))]
         yield "W " + " ".join(toks)
     # --- malformed stream: a well-formed prefix followed by calls the client has no right to make
@@ -541,6 +564,11 @@ def gen_O(tier, seed, info):
         "O T+x K+0 H0.1 k0 u0", "O T+x K+0 H0.0 k0 u1", "O T+m P+ H0.1 k0 u0", "O T+m T+m H0.1 H1.0 k0 k1",
         "O P+ H0.0 a0.0", "O P+ H0.0 a0.2", "O P+ r0 H0.0 a0.1 u0", "O P+ r0 H0.0 a0.3 u0", "O P+ P+ H0.1 H1.0 a0.0",
         "O P+ B+ p1.0 H0.0 a0.0 t1.616263 u1", "O P+ T+x H0.0 p1.0 a0.0 w1.6162 u1",
+        # a binding that is notified of its object's destruction still uses the dying object (emits a key and resizes the
+        # terminal, changes the pen): the dispatch's reference pair must not destroy it a second time
+        "O T+m D0.0 u0", "O T+x D0.0 u0", "O T+m D0.1 u0", "O T+x D0.1 u0", "O T+m D0.0 D0.1 H0.0 k0", "O T+x r0 K+0 D0.0 u1",
+        "O T+m D0.1 D0.0 r0 u0 k0 u0", "O P+ D0.0 u0", "O P+ D0.1 u0", "O P+ D0.1 H0.0 a0.0", "O P+ D0.0 D0.1 r0 a0.1 u0 u0",
+        "O P+ B+ D0.0 p1.0 u0 t1.616263 u1", "O P+ T+x D0.1 p1.0 u0 w1.6162 u1",
     ]
     for sizes in itertools.product((0, 1, 3, 16, 64), repeat=3):
         fixed.append("O T+x o0.%d w0.616263 G0 o0.%d w0.e4b8ad61 P+ a1.1 p0.1 o0.%d w0.6162 F0 u1 u0" % sizes)
@@ -551,6 +579,7 @@ def gen_O(tier, seed, info):
         objs = []      # (kind, held)
         toks = []
         hooks = []     # [owner, target, armed]: H handlers (fire on the owner's next KEY / CHANGE event)
+        dying_bound = set()   # objects with a D binding
 
         def fire(owner):
             for h in hooks:
@@ -583,8 +612,14 @@ def gen_O(tier, seed, info):
             elif r < 0.5:
                 toks.append("u%d" % i); objs[i][1] -= 1
             elif r < 0.56 and k in "PT":
-                j = rnd.choice(live)
-                toks.append("H%d.%d" % (i, j)); hooks.append([i, j, True])
+                if i not in dying_bound:
+                    j = rnd.choice(live)
+                    toks.append("H%d.%d" % (i, j)); hooks.append([i, j, True])
+            elif r < 0.59 and k in "PT":
+                # (not on an object that has an H handler: the dying object's own events would fire it, at a moment the
+                #  driver's expansion of H handlers does not know)
+                if not any(h[0] == i for h in hooks):
+                    toks.append("D%d.%d" % (i, rnd.randint(0, 1))); dying_bound.add(i)
             elif k == 'P':
                 c = rnd.choice("adeyc")
                 if c == 'a':
@@ -676,8 +711,16 @@ def gen(tier, seed, info):
 
 
 # ---------------------------------------------------------------------------------------
+def has_destroy_handler(case):
+    return case.startswith("W ") and any(t[0] == 'b' and t.split('.')[1:2] == ['d'] for t in case.split()[1:])
+
+
 def canon(case, obs):
-    """details after '#' (sanitizer kind, file, function, LSan's own verdict) are for the reader only"""
+    """details after '#' (sanitizer kind, file, function, LSan's own verdict) are for the reader only.
+    The model does not run DESTROY handlers: for scripts that bind one the observation is not compared with the
+    model's; the oracle (the discipline on the trace the harness reports) judges them on its own."""
+    if has_destroy_handler(case):
+        return "(DESTROY handler: not modelled)"
     i = obs.find(" #")
     return obs[:i] if i >= 0 else obs
 
